@@ -871,7 +871,8 @@ class Replica(object):
                 d = p.get("default")
                 if not (type(d) is type(sp["default"]) and d == sp["default"]):
                     self.add_violation("C07", job, "3-default", "%s: parsed default %r, __init__ default %r" % (n, d, sp["default"]),
-                                       {"how": "%s->%s" % (type(sp["default"]).__name__, type(d).__name__), "which": "init"})
+                                       {"how": "%s->%s" % (type(sp["default"]).__name__, type(d).__name__), "which": "init",
+                                        "sig_default_in_quotes": True if isinstance(sp["default"], str) and len(sp["default"]) >= 2 and sp["default"][0] == sp["default"][-1] and sp["default"][0] in "'\"" else None})
             if n in t["documented"] and _norm_prose(p.get("doc")) != _norm_prose(t["params"][n]["doc"]):
                 self.add_violation("C07", job, "4-prose", "%s: parsed prose %r, documented %r" % (n, p.get("doc"), t["params"][n]["doc"]), {"which": "init"})
 
